@@ -178,6 +178,7 @@ extern "C" size_t sim_device(void *user_data, unsigned char *buf, size_t size) {
     size_t req = c.dev_req++;
     int k = 32;
     if (c.op && req < c.op->del.size()) k = c.op->del[req];
+    if (c.op) for (size_t j = 0; j < c.op->del.size() && j <= req; j++) if (c.op->del[j] < 0) { k = c.op->del[j] == -1 ? 0 : 7; break; }   // a source that keeps failing
     if (k < 0) k = 0;
     if ((size_t)k > size) k = (int)size;
     EntropyReq r;
@@ -345,9 +346,25 @@ extern "C" int sim_os_open(const char *path) {
     }
     c.opens++; c.fds_open++;
     bump(w, CT_P_TRNG_FD_OPENED);
-    int fd = w.plan->fd_base + (c.fd_next++);
+    // one descriptor table per world, shared by all simulated callers, lowest free number first (POSIX): a descriptor
+    // closed twice may by then belong to somebody else
+    int slot = 0;
+    while (slot < World::NFD && w.fd_owner[slot] >= 0) slot++;
+    if (slot >= World::NFD) { errno = EMFILE; c.opens--; c.fds_open--; return -1; }
+    w.fd_owner[slot] = (int8_t)w.cur;
+    int fd = w.plan->fd_base + slot;
     if (c.nfds < 16) c.fds[c.nfds++] = fd;
     return fd;
+}
+static bool fd_is_open(World &w, int fd) {
+    int slot = fd - w.plan->fd_base;
+    return slot >= 0 && slot < World::NFD && w.fd_owner[slot] >= 0;
+}
+extern "C" long sim_os_read(int fd, void *buf, size_t n) {
+    World *wp = g_world;
+    if (!wp || wp->cur < 0 || wp->oracle) { errno = ENOSYS; return -1; }
+    if (!fd_is_open(*wp, fd)) { sim_point(SK_OS, 33); errno = EBADF; return -1; }   // somebody closed it (or it was never opened)
+    return sim_os_entropy(buf, n, 2);
 }
 // dup / fcntl(F_DUPFD*) on a simulated descriptor: a new descriptor that must be closed too
 extern "C" int sim_os_dup(int fd, int minfd) {
@@ -360,7 +377,11 @@ extern "C" int sim_os_dup(int fd, int minfd) {
     bool known = false;
     for (int i = 0; i < c.nfds; i++) if (c.fds[i] == fd) known = true;
     if (!known) { errno = EBADF; return -1; }
-    int nfd = std::max(minfd, w.plan->fd_base + 100 + (c.fd_next++));
+    int slot = std::max(0, minfd - w.plan->fd_base);
+    while (slot < World::NFD && w.fd_owner[slot] >= 0) slot++;
+    if (slot >= World::NFD) { errno = EMFILE; return -1; }
+    w.fd_owner[slot] = (int8_t)w.cur;
+    int nfd = w.plan->fd_base + slot;
     c.opens++; c.fds_open++;
     if (c.nfds < 16) c.fds[c.nfds++] = nfd;
     return nfd;
@@ -372,10 +393,12 @@ extern "C" int sim_os_close(int fd) {
     TaskState &t = *w.ts[w.cur];
     sim_point(SK_OS, 31);
     CurOp &c = t.cur;
+    int slot = fd - w.plan->fd_base;
+    if (slot < 0 || slot >= World::NFD || w.fd_owner[slot] < 0) { errno = EBADF; return -1; }   // not open
+    w.fd_owner[slot] = -1;   // closes whatever is there -- also a descriptor that meanwhile belongs to another caller
     for (int i = 0; i < c.nfds; i++)
         if (c.fds[i] == fd) { c.fds[i] = c.fds[--c.nfds]; c.closes++; c.fds_open--; return 0; }
-    errno = EBADF;   // not a descriptor this call opened
-    return -1;
+    return 0;
 }
 // simulated sleep: no real time passes; may be interrupted (EINTR) when the plan says so
 extern "C" int sim_os_sleep(uint64_t ns) {
